@@ -18,4 +18,10 @@ CLAIMED = {
               "compared after every call. Sampled exploration (600+300 histories quick, 36k thorough)."),
         note="trusts os.File on tmpfs; zero-length reads on write-only handles and zero-length writes on read-only handles are not generated (os.File short-circuits them before the descriptor); read of a directory handle excluded while known finding C02:read-directory-handle reproduces",
     ),
+    "C03": dict(
+        technique="state-machine property testing with rapid; invariant oracle (well-formed tree) evaluated over the full depth-4 path closure after every step; watchdog for termination",
+        text=("Generated histories (including root removal/rename, rename into a descendant, creation below regular files) run on mem.FS, keyvalue.FS over a plain store, a mount composition with a nested "
+              "mount, and Sub views; after every step the tree invariants I1-I5 are evaluated on every constituent file system over all 121 candidate paths, not only those listings reveal. Sampled exploration."),
+        note="termination is observed as 'returned within the watchdog' (twice); removing/renaming the root of a Sub view is not generated; RemoveAll above a mount point is excluded while known finding C03:removeall-above-mountpoint reproduces",
+    ),
 }
